@@ -554,6 +554,24 @@ def main() -> int:
         print(text)
     if not p.exists() or p.read_text() != text:
         p.write_text(text)
+    import py2lean_serdes  # noqa: E402
+
+    text, problems = py2lean_serdes.translate_serdes(Path(args.repo))
+    all_problems += ["[Gen.Serdes] " + x for x in problems]
+    p = outdir / "Serdes.lean"
+    if args.print:
+        print(text)
+    if not p.exists() or p.read_text() != text:
+        p.write_text(text)
+    import py2lean_names  # noqa: E402
+
+    text, problems = py2lean_names.translate_names(Path(args.repo))
+    all_problems += ["[Gen.Names] " + x for x in problems]
+    p = outdir / "Names.lean"
+    if args.print:
+        print(text)
+    if not p.exists() or p.read_text() != text:
+        p.write_text(text)
     for pr in all_problems:
         print("py2lean: " + pr)
     return 3 if all_problems else 0
